@@ -86,6 +86,7 @@ pub fn get(id: &str) -> Option<PropDef> {
 pub fn child_main(args: &[String]) -> i32 {
     match args.first().map(|s| s.as_str()) {
         Some("c03-deep") => c03::child(&args[1..]),
+        Some("c03-flat") => c03::child_flat(&args[1..]),
         Some("c16") => c16::child(&args[1..]),
         _ => {
             eprintln!("unknown child op {:?}", args.first());
